@@ -76,10 +76,13 @@ static void baObs() {
 
 // ---- arrays
 static StaticArrayT<int, VC_CAP> g_sa;
-static DynamicArrayT<int, VC_CAP> g_da;
+static DynamicArrayT<int, VC_CAP> g_da, g_db;
 static void arObs() {
+	const DynamicArrayT<int, VC_CAP>& cda = g_da;
 	out += "\"sa\":["; { int n = 0; for (const int& v : g_sa) { if (n++) out += ','; i(v); } }
-	out += "],\"da\":["; { int n = 0; for (const int& v : g_da) { if (n++) out += ','; i(v); } }
+	out += "],\"da\":["; { int n = 0; for (const int& v : g_da) { if (n++) out += ','; i(v); } }	// iteration
+	out += "],\"dai\":["; { for (unsigned n = 0; n < cda.count(); ++n) { if (n) out += ','; i(cda[n]); } }	// indexing
+	out += "],\"db\":["; { int n = 0; for (auto it = g_db.cbegin(); it != g_db.cend(); ++it) { if (n++) out += ','; i(*it); } }
 	out += "],"; kv("cnt", g_da.count()); kv("sempty", g_sa.empty() ? 1 : 0); kv("dempty", g_da.empty() ? 1 : 0, false);
 }
 
@@ -132,12 +135,17 @@ int main(int argc, char** argv) {
 			else if (op == "and") g_ba &= maskOf(static_cast<int>(a));
 			kv("r", 0); baObs();
 		} else if (c == "ar") {
-			if (op == "new") { new (&g_sa) StaticArrayT<int, VC_CAP>{}; new (&g_da) DynamicArrayT<int, VC_CAP>{}; }
+			if (op == "new") { new (&g_sa) StaticArrayT<int, VC_CAP>{}; new (&g_da) DynamicArrayT<int, VC_CAP>{}; new (&g_db) DynamicArrayT<int, VC_CAP>{}; }
 			else if (op == "sset") g_sa[a] = static_cast<int>(b);
 			else if (op == "sfill") g_sa.fill(static_cast<int>(a));
 			else if (op == "sclear") g_sa.clear();
 			else if (op == "demplace") r = g_da.emplace(static_cast<int>(a));
 			else if (op == "dclear") g_da.clear();
+			else if (op == "dpush") { const int v = static_cast<int>(a); g_da += v; }
+			else if (op == "dpushm") g_da += static_cast<int>(a);
+			else if (op == "bemplace") r = g_db.emplace(static_cast<int>(a));
+			else if (op == "bclear") g_db.clear();
+			else if (op == "dappend") g_da += g_db;
 			kv("r", r); arObs();
 		} else if (c == "bs") {
 			if (op == "new") { std::memset(&g_buf, 0x5A, sizeof g_buf); g_ws = new (g_wsStore) WS{g_buf}; g_rs = new (g_rsStore) RS{g_buf}; }
